@@ -1781,6 +1781,8 @@ class _Builder:
         f = t[1]
         if op(f) == "cls":
             return True
+        if op(f) == "builtin" and f[1] in ("str", "list", "dict", "set", "tuple", "sorted", "len", "frozenset", "repr", "int", "float", "bool", "bytes"):
+            return True  # these builtins hand back an object of their type, never None
         if op(f) == "func" and f[1] in self.model.functions:
             # a package function every `return` of which hands back a display / f-string / non-None literal and
             # whose body cannot fall off the end (`_split`: `return prefix, identifier` or a raise)
